@@ -94,10 +94,11 @@ class Unsup(Exception):
 
 
 class Ev:
-    __slots__ = ('kind', 'a', 'b', 'op', 'stmt')
+    __slots__ = ('kind', 'a', 'b', 'op', 'stmt', 'via_name')
 
-    def __init__(self, kind, a=None, b=None, op=None, stmt=None):
+    def __init__(self, kind, a=None, b=None, op=None, stmt=None, via_name=False):
         self.kind, self.a, self.b, self.op, self.stmt = kind, a, b, op, stmt
+        self.via_name = via_name   # aug-assignment whose target is a local NAME (bound to self.a)
 
 
 class St:
@@ -111,6 +112,9 @@ class St:
         return St(self.env, self.pc, self.events, self.done)
 
 
+ATOMS = {}   # atom key -> expression (for messages and shape tests on path conditions)
+
+
 def _truth(test, flags, known):
     """(value, None) if decided, else (None, (atom key, negated))."""
     if isinstance(test, ast.UnaryOp) and isinstance(test.op, ast.Not):
@@ -121,6 +125,7 @@ def _truth(test, flags, known):
     if isinstance(test, ast.Constant):
         return bool(test.value), None
     k = astx.dump(test)
+    ATOMS[k] = test
     if k in flags:
         return flags[k], None
     if k in known:
@@ -208,7 +213,8 @@ def _step(s, st, flags):
     elif isinstance(s, ast.AugAssign):
         for e, s2 in _eval(s.value, st, flags):
             tgt = _subst(s.target, s2.env)
-            s2.events.append(Ev('aug', tgt, e, op=type(s.op).__name__, stmt=s))
+            s2.events.append(Ev('aug', tgt, e, op=type(s.op).__name__, stmt=s,
+                                via_name=isinstance(s.target, ast.Name)))
             yield s2
     elif isinstance(s, ast.If):
         for val, s2 in _decide(_subst(s.test, st.env), st, flags):
@@ -303,11 +309,19 @@ def self_kind(e):
         if nm in _COPY_FUNCS and e.args:
             return 'copy' if self_kind(e.args[0]) else None
         return None
+    if isinstance(e, ast.Subscript) and isinstance(e.slice, ast.Slice) and e.slice.lower is None and \
+            e.slice.upper is None and e.slice.step is None:
+        return self_kind(e.value)   # x[:] is a view of the whole of x
     if astx.path(e) == 'self._data':
         return 'raw'
     if astx.path(e) == 'self._data.real':
         return 'realview'
     return None
+
+
+def self_kind_in(e):
+    """True if some sub-expression of e denotes this vector's data."""
+    return any(self_kind(n) for n in ast.walk(e) if isinstance(n, (ast.Call, ast.Attribute)))
 
 
 def operand_of(e, pname):
@@ -348,7 +362,11 @@ def effects(st):
         if ev.kind == 'aug':
             t = ev.a
             if isinstance(t, ast.Subscript) and self_kind(t.value):
-                out.append(Eff('inplace', ev, ev.op, self_kind(t.value), t.slice, ev.b))
+                k = self_kind(t.value)
+                if ev.via_name and not isinstance(t.slice, ast.Slice):
+                    # `tmp = data[idx]; tmp op= x`: for an integer or index-array idx tmp is a copy
+                    k = 'temp'
+                out.append(Eff('inplace', ev, ev.op, k, t.slice, ev.b))
             elif self_kind(t):
                 out.append(Eff('inplace', ev, ev.op, self_kind(t), None, ev.b))
             else:
@@ -447,6 +465,11 @@ def check_update(chk, effs, kind, op, want_idx, val_check, allow_raw=False):
         return
     if e.skind == 'copy':
         chk.bad(st, 'operates on a copy of the data, the vector itself is unchanged', 'copy')
+        return
+    if e.skind == 'temp':
+        chk.bad(st, f'updates a local bound to `{astx.src(e.ev.a)}` taken beforehand: for an integer or '
+                'index-array index that is a copy (or a scalar), so the vector is unchanged; index on the left '
+                'of the in-place operator instead', 'index-temp')
         return
     if kind == 'set' and e.skind in ('live', 'realview'):
         # an assignment replaces the selected entries completely (NumPy: data[idx] = val gives val+0j);
@@ -567,6 +590,30 @@ def _single_path(chk):
         chk.unsure(chk.fn.node, f'{len(ps)} paths where straight-line code was expected')
         return None
     return effects(ps[0])
+
+
+def _zero_skip(pc, pname):
+    """True if the path condition consists only of `pname is zero` tests."""
+    if not pc:
+        return False
+    for key, val in pc:
+        t = ATOMS.get(key)
+        if is_name(t, pname):
+            if val is not False:
+                return False
+            continue
+        if isinstance(t, ast.Compare) and len(t.ops) == 1:
+            a, b = t.left, t.comparators[0]
+            if is_name(b, pname):
+                a, b = b, a
+            if is_name(a, pname) and isinstance(b, ast.Constant) and not isinstance(b.value, (str, bool)) \
+                    and b.value is not None and b.value == 0:
+                if isinstance(t.ops[0], ast.Eq) and val is True:
+                    continue
+                if isinstance(t.ops[0], ast.NotEq) and val is False:
+                    continue
+        return False
+    return True
 
 
 def _op_indexed(repo, out, name, op):
@@ -725,10 +772,25 @@ def opname(repo, out):
     fn = repo.func(DVEC, 'DefaultVector.add_scal_vec')
     chk = Chk(out, fn, 'add_scal_vec')
     ps = params(fn)
-    effs = _single_path(chk) if len(ps) == 3 else chk.unsure(fn.node, 'signature is not (self, val, vec)')
-    if effs is not None:
-        check_update(chk, effs, 'inplace', 'Add', None, _val_scal_vec(ps[1], ps[2]))
-        check_returns(chk, effs, 'none')
+    sts = _paths_or_unsure(chk) if len(ps) == 3 else chk.unsure(fn.node, 'signature is not (self, val, vec)')
+    if sts is not None:
+        for st_ in sts:
+            effs = effects(st_)
+            if len(sts) > 1 and not [e for e in effs if e.kind not in ('return',)]:
+                # a path that returns without touching the data
+                if _zero_skip(st_.pc, ps[1]):
+                    r = [e for e in effs if e.kind == 'return']
+                    chk.bad(_stmt(r[-1]) if r else fn.node, f'skips the update when `{ps[1]}` is zero: NumPy '
+                            f'`data += 0 * {ps[2]}` still turns inf/NaN entries of `{ps[2]}` into NaN', 'skip-zero')
+                else:
+                    chk.unsure(fn.node, 'a path returns without updating the data')
+                continue
+            if len(sts) > 1 and chk.state is None and not all(
+                    isinstance(ATOMS.get(k), (ast.Compare, ast.Name)) for k, _ in st_.pc):
+                chk.unsure(fn.node, f'{len(sts)} paths where straight-line code was expected')
+                continue
+            check_update(chk, effs, 'inplace', 'Add', None, _val_scal_vec(ps[1], ps[2]))
+            check_returns(chk, effs, 'none')
         chk.ok(fn.node, f'data += {ps[1]} * {ps[2]}.asarray()')
 
     # set_vec(vec): data[:] = vec.asarray()
@@ -759,7 +821,15 @@ def opname(repo, out):
                 a, b = v.func.value, v.args[0]
             elif isinstance(v, ast.BinOp) and isinstance(v.op, ast.MatMult):
                 a, b = v.left, v.right
-            if a is None:
+            conj = [n for n in ast.walk(v) if (isinstance(n, ast.Call) and (
+                astx.call_name(n) in ('np.vdot', 'numpy.vdot', 'np.conj', 'np.conjugate', 'numpy.conj',
+                                      'numpy.conjugate') or
+                (isinstance(n.func, ast.Attribute) and n.func.attr in ('conj', 'conjugate'))))]
+            if conj and self_kind_in(v) and any(operand_of(n, ps[1]) for n in ast.walk(v)):
+                chk.bad(_stmt(r), f'`{astx.src(conj[0])[:60]}` conjugates an operand: under complex step the product '
+                        'is no longer np.dot(self, vec) (not symmetric, imaginary part of the derivative flips sign)',
+                        'conjugate')
+            elif a is None:
                 chk.unsure(_stmt(r), f'`{astx.src(v)}` is not a recognised dot product')
             else:
                 s = [x for x in (a, b) if self_kind(x)]
@@ -1890,6 +1960,17 @@ selftest(
            'C33.opname'),
     Mutant('set-val-accumulates', DVEC, "        self._data[idxs] = val", "        self._data[idxs] += val", 'C33.opname'),
     Mutant('set-val-rebinds', DVEC, "        self._data[idxs] = val", "        self._data = val", ['C33.opname', 'C33.who']),
+    Mutant('dot-vdot', DVEC, "        return np.dot(self.asarray(), vec.asarray())", "        return np.vdot(self.asarray(), vec.asarray())",
+           'C33.opname'),
+    Mutant('dot-conj-operand', DVEC, "        return np.dot(self.asarray(), vec.asarray())",
+           "        return np.dot(self.asarray().conj(), vec.asarray())", 'C33.opname'),
+    Mutant('imul-index-temp', DVEC, _IMUL, "        data = self.asarray()[idxs]\n        data *= val", 'C33.opname'),
+    Mutant('add-to-slice-index-temp', VEC, "        self.asarray()[slc] += val.flat", "        part = self.asarray()[slc]\n        part += val.flat",
+           'C33.opname'),
+    Mutant('scal-vec-skip-zero', DVEC, "        data = self.asarray()\n        data += (val * vec.asarray())",
+           "        if val == 0.0:\n            return  # nothing to add\n\n        data = self.asarray()\n        data += (val * vec.asarray())", 'C33.opname'),
+    Mutant('scal-vec-skip-falsy', DVEC, "        data = self.asarray()\n        data += (val * vec.asarray())",
+           "        if val:\n            data = self.asarray()\n            data += (val * vec.asarray())", 'C33.opname'),
     Mutant('set-val-real-view', DVEC, "        self._data[idxs] = val", "        data = self.asarray()\n        data[idxs] = val",
            'C33.opname'),
     Mutant('set-val-dot-real', DVEC, "        self._data[idxs] = val", "        self._data.real[idxs] = val", 'C33.opname'),
@@ -2013,6 +2094,8 @@ selftest(
     Twin('twin-scal-vec-commuted', DVEC, "        data += (val * vec.asarray())", "        other = vec.asarray()\n        data += other * val"),
     Twin('twin-dot-method', DVEC, "        return np.dot(self.asarray(), vec.asarray())", "        a = self.asarray()\n        return a.dot(vec.asarray())"),
     Twin('twin-norm-sqrt', DVEC, "        return np.linalg.norm(self.asarray())", "        x = self.asarray()\n        return np.sqrt(np.dot(x, x))"),
+    Twin('twin-iadd-slice-temp', DVEC, _IADD, "        data = self.asarray()[:]\n        data[idxs] += val"),
+    Twin('twin-dot-inner', DVEC, "        return np.dot(self.asarray(), vec.asarray())", "        return np.inner(vec.asarray(), self.asarray())"),
     Twin('twin-set-val-local-raw', DVEC, "        self._data[idxs] = val", "        data = self._data\n        data[idxs] = val"),
     Twin('twin-set-val-asarray', DVEC, "        self.set_val(vec.asarray())", "        self._data[:] = vec.asarray()"),
     Twin('twin-asarray-ifexp', DVEC, "        if copy:\n            return arr.copy()\n\n        return arr", "        return arr.copy() if copy else arr"),
